@@ -20,6 +20,14 @@
 //   quiet-after-stop  no handler starts or is still running after stop()/drain() returned
 //   refused-after-stop a schedule call that begins after stop()/drain() returned is refused
 #include "mc.h"
+#ifdef MC_TSAN
+#include "tsan_shim.h" // T flavour: atomics of the timer objects are scheduling points, plain accesses are checked against happens-before
+#define C08_WATCH(p, n, name) mc_watch((p), (n), (name), true)
+#define C08_UNWATCH(p) mc_unwatch((p))
+#else
+#define C08_WATCH(p, n, name) ((void)0)
+#define C08_UNWATCH(p) ((void)0)
+#endif
 #include "simk.h"
 #include <iora/core/timer.hpp>
 #include <iora/core/timing_wheel.hpp>
@@ -207,6 +215,7 @@ void runTs(const TsScn &sc)
   TimerServiceConfig cfg;
   cfg.enableStatistics = false;
   auto *svc = new TimerService(cfg);
+  C08_WATCH(svc, sizeof(TimerService), "timer.service");
   std::vector<int> m1, m2;
   std::thread a([&]() { tsProgram(*svc, sc.prog1, "A", m1); });
   std::thread b;
@@ -274,6 +283,7 @@ void runTs(const TsScn &sc)
     mc_quiesce(100 * MS);
   }
   mc_label("main:dtor");
+  C08_UNWATCH(svc);
   delete svc;
   log.stopped = true;
   mc_quiesce(50 * MS);
@@ -390,6 +400,7 @@ void runWh(const WhScn &sc)
   L = &log;
   log.tm.reserve(32);
   auto *wh = new TimingWheel(milliseconds(10), 4, 3);
+  C08_WATCH(wh, sizeof(TimingWheel), "timing.wheel");
   wh->start();
   std::vector<int> m1, m2;
   std::thread a([&]() { whProgram(*wh, sc.prog1, "A", m1); });
@@ -433,6 +444,7 @@ void runWh(const WhScn &sc)
     mc_quiesce(100 * MS);
   }
   mc_label("main:dtor");
+  C08_UNWATCH(wh);
   delete wh;
   mc_label("main:check");
   checkTimers("wheel", 10 * MS, past);
@@ -458,6 +470,7 @@ void wheelSeq(int depth)
   L = &log;
   log.tm.reserve(32);
   auto *wh = new TimingWheel(milliseconds(10), 4, 3);
+  C08_WATCH(wh, sizeof(TimingWheel), "timing.wheel");
   // drive the wheel by hand: accept timers, no tick thread
   wh->_accepting.store(true);
   wh->_state.store(TimingWheelState::RUNNING);
@@ -547,6 +560,7 @@ void wheelSeq(int depth)
   }
   checkTimers("wheel", 10 * MS, true);
   wh->_accepting.store(false);
+  C08_UNWATCH(wh);
   delete wh;
   L = nullptr;
 }
@@ -652,5 +666,9 @@ int main(int argc, char **argv)
     m.horizon_s = 30;
     v.push_back(m);
   }
+#ifdef MC_TSAN
+  return mc_main(argc, argv, "C08_timers_T", v);
+#else
   return mc_main(argc, argv, "C08_timers", v);
+#endif
 }
